@@ -805,3 +805,57 @@ def loop_body_exits(fn, header_bb):
             if s2 not in loop and not fn.blocks[s2].get("cleanup"):
                 out.append((b, s2))
     return out
+
+
+# --------------------------------------------------------------------------- whole-collection passes
+_PARTIAL_ADAPTERS = {"map_while", "take_while", "take", "skip", "skip_while", "step_by", "find", "find_map", "any", "all",
+                     "position", "rposition", "nth", "nth_back", "next", "next_back", "last", "peekable", "scan", "try_find"}
+_TOTAL_ADAPTERS = {"map", "filter_map", "filter", "flatten", "flat_map", "inspect", "cloned", "copied", "enumerate", "chain",
+                   "collect", "for_each", "fold", "count", "sum", "rev", "into_iter", "iter", "iter_mut", "by_ref", "try_for_each",
+                   "try_fold", "zip", "unzip", "partition", "extend", "max", "min", "max_by_key", "min_by_key", "sorted"}
+
+
+def pass_over_iterator(fn, is_source):
+    """How `fn` consumes an iterator whose origin satisfies is_source(expr) (an expression tree as produced by expr_of).
+    Returns (kind, problems): kind in {"loop", "chain", None}; problems lists what makes the pass partial:
+    a normal return reachable from the loop body without asking for the next element, or a short-circuiting adapter."""
+    problems = []
+    kind = None
+
+    def derives(e, depth=0):
+        if depth > 14 or not isinstance(e, tuple):
+            return False
+        if is_source(e):
+            return True
+        if e[0] in ("ref", "try", "discr"):
+            return derives(e[1], depth + 1)
+        if e[0] in ("field", "cast"):
+            return derives(e[1] if e[0] == "field" else e[2], depth + 1)
+        if e[0] == "call":
+            return bool(e[2]) and derives(e[2][0], depth + 1)
+        if e[0] == "multi":
+            return any(derives(x, depth + 1) for x in e[1])
+        return False
+
+    for c in fn.calls():
+        if not c.args:
+            continue
+        recv = expr_of(fn, c.args[0], depth=20)
+        if not derives(recv):
+            continue
+        nm = c.name.rsplit("::", 1)[-1]
+        if is_iter_next(c):
+            kind = "loop"
+            cuts = switch_cuts_on_call_result(fn, lambda cc: cc.bb == c.bb, [0])  # None edge: exhausted
+            body = cut_edges_reach(fn, fn.succ(c.bb), {c.bb} | fn.error_exit_blocks(), cuts)
+            leaks = sorted(b for b in body if fn.blocks[b]["term"]["t"] == "return" and not fn.blocks[b]["cleanup"])
+            if leaks:
+                problems.append(f"normal return from the loop body before the iterator is exhausted (bb{leaks[0]})")
+        elif "Iterator" in c.name or "iter::" in c.name:
+            if kind is None:
+                kind = "chain"
+            if nm in _PARTIAL_ADAPTERS:
+                problems.append(f"short-circuiting adapter `{nm}`")
+            elif nm not in _TOTAL_ADAPTERS:
+                problems.append(f"unclassified adapter `{nm}`")
+    return kind, problems
